@@ -226,6 +226,38 @@ class C20(common.Prop):
             return self.collator.collate_tensors(batch, pad_value=case["pad"])
         return self.collator.pad_tensors(batch, pad_value=case["pad"])
 
+    def float_pad_probe(self, case):
+        """a batch of floating-point tensors padded with a pad value that is not a whole number: every padded position holds the
+        pad value AS THE FIELD'S DTYPE HOLDS IT (0.1 in a float64 field is the double 0.1, not the float32 nearest to it)"""
+        torch = self.torch
+        if case["entry"] == "zpc" or case.get("malformed", "none") != "none" or len(case["batch"]) < 2:
+            return
+        if not all(v["k"] in "MP" and v["dt"] in (4, 5) and v["shape"] for v in case["batch"]):
+            return
+        if len({(v["k"], v["dt"], tuple(v["shape"][1:])) for v in case["batch"]}) != 1:
+            return
+        lens = [v["shape"][0] for v in case["batch"]]
+        if len(set(lens)) < 2:
+            return
+        for padf in (0.1, -2.0 / 3.0):
+            try:
+                batch = [self.build(v) for v in case["batch"]]
+                r = self.collator.collate_tensors(batch, pad_value=padf) if case["entry"] == "ct" else self.collator.pad_tensors(batch, pad_value=padf)
+                if isinstance(r, list):
+                    r = r  # pad_tensors returns the padded examples
+                rows = list(r) if isinstance(r, list) else [r[i] for i in range(len(lens))]
+                want = torch.tensor(padf, dtype=self.dts[case["batch"][0]["dt"]])
+                for i, row in enumerate(rows):
+                    t = row.tensor if hasattr(row, "tensor") and hasattr(row, "mask") else row
+                    tail = t[lens[i]:]
+                    if tail.numel() and not bool((tail == want).all()):
+                        case["_padf"] = "row %d: a padded position holds %r, the pad value %r in dtype %s is %r" % (
+                            i, float(tail.reshape(-1)[0]), padf, str(t.dtype), float(want))
+                        return
+            except Exception as e:
+                case["_padf"] = "pad value %r raises %s" % (padf, type(e).__name__)
+                return
+
     def run_impl(self, case):
         case.pop("_reuse", None)
         try:
@@ -236,6 +268,8 @@ class C20(common.Prop):
             case["_impl"] = "err"
             return "err"
         case["_impl"] = self.canon_out(r)
+        case.pop("_padf", None)
+        self.float_pad_probe(case)
         # the SAME example objects collated once more without the longest example: collation must not have changed its inputs,
         # so the result equals the collation of freshly built copies
         if len(batch) >= 2:
@@ -414,6 +448,8 @@ class C20(common.Prop):
                     "copies of them: the first collation changed its inputs" % case["_reuse"]["kept"], "detail": case["_reuse"]}
         if got == "err":
             return {"clause": "raises", "what": "collating a well-formed homogeneous batch raises %s" % case.get("_impl_exc")}
+        if case.get("_padf"):
+            return {"clause": "padding", "what": "non-integral pad value: " + case["_padf"]}
         return self.check_field(got, exp, "batch")
 
     def classify(self, case, failure):
